@@ -97,7 +97,8 @@ impl Property for C07 {
          iff intersecting, symmetry, Geometry-enum path, same value for 2 re-representations. Non-trivial = the operands do not \
          intersect while their bounding boxes do. Sub-cases: a point against an oblique segment at rounding level (exact on-segment \
          test decides the zero clause), empty operands (no panic, order / wrapper independent), and point sets at an extreme uniform \
-         scale 2^+-520..999 (the distance is representable although its square is not)."
+         scale 2^+-520..999 (the distance is representable although its square is not); 1 case in 13: the second operand inside a \
+         hole of a polygon with many holes, incl. a template with a small hole in the notch of an L-shaped hole (nested hole envelopes)."
             .into()
     }
     fn must_hit() -> Vec<&'static str> {
